@@ -19,7 +19,8 @@ RULE = ('random trees of 2-7 grammar files in up to 3 directory levels (root, pk
         'distribution); non-trivial = a name is defined in >= 2 visible files, or the graph has a diamond or cycle')
 REQUIRED = {'grammar_trees': 200, 'objects_checked': 800, 'names_with_competing_definitions': 200, 'qualified_lookups': 1000,
             'deep_imports': 50, 'diamonds': 20, 'cyclic_trees': 20,
-            'alias_rules': 100, 'alias_to_rule_not_visible_from_root': 10, 'qualified_link_references': 100}
+            'alias_rules': 100, 'alias_to_rule_not_visible_from_root': 10, 'qualified_link_references': 100,
+            'attribute_types_checked': 300, 'attribute_typed_by_a_rule_defined_later_in_the_file': 30}
 
 DIRS = ['', 'pkg', 'pkg/sub', 'pkg/sub/deep']
 NAMES = ['A', 'B', 'C', 'D']
@@ -313,6 +314,32 @@ def one(ctx, i, rep=None):
                         ctx.violation(None, 'link reference [%s.%s] in %s.%s is typed %s' % (
                             ns_of(qr[0]), qr[1], ns_of(f), n, getattr(getattr(a, 'cls', None), '_tx_fqn', None)), wit, rep)
                         return
+        # ---- attribute types: the class an attribute is typed with is the one its rule name resolves to ----
+        for f in sorted(reach):
+            for n, sub in info[f]['defs'].items():
+                if not sub or sub.startswith('='):
+                    continue
+                c = mm.namespaces[ns_of(f)][n]
+                a = c._tx_attrs.get('sub')
+                df, nm = resolve(info, f, sub), sub
+                # (an alias rule X: Y; is a class of its own: an attribute typed X is typed with that class)
+                want = ns_of(df) + '.' + nm
+                got = getattr(getattr(a, 'cls', None), '_tx_fqn', None)
+                ctx.count('attribute_types_checked')
+                if list(info[f]['defs']).index(n) < (list(info[f]['defs']).index(sub) if sub in info[f]['defs'] else -1):
+                    ctx.count('attribute_typed_by_a_rule_defined_later_in_the_file')
+                if got != want:
+                    key = None
+                    if cyc:
+                        res, _u = emulate_cycle_defect(info)
+                        if any(res.get(k) != resolve(info, *k) for k in res if resolve(info, *k)):
+                            key = 'import-cycle-back-edge'
+                    ctx.violation(key, 'attribute sub=%s of %s.%s is typed %s, the rule name resolves to %s' % (sub, ns_of(f), n, got, want), wit, rep)
+                    return
+        a = mm['Model']._tx_attrs['things']
+        if a.cls is not mm.namespaces['main']['Thing']:
+            ctx.violation(None, 'Model.things is typed %s' % getattr(a.cls, '_tx_fqn', a.cls), wit, rep)
+            return
         if set(k for k in mm.namespaces if k != '__base__') != {ns_of(f) for f in reach}:
             ctx.violation(None, 'namespaces %r, imported files %r' % (sorted(k for k in mm.namespaces if k != '__base__'), sorted(ns_of(f) for f in reach)), wit, rep)
     finally:
